@@ -18,7 +18,7 @@ func nilReturns(fn *ssa.Function) []*ssa.Return {
 		return nil
 	}
 	for _, r := range eng.Returns(fn) {
-		if len(r.Results) == res.Len() && eng.IsNilConst(r.Results[len(r.Results)-1]) {
+		if len(eng.RetResults(r)) == res.Len() && eng.IsNilConst(eng.RetResults(r)[len(eng.RetResults(r))-1]) {
 			out = append(out, r)
 		}
 	}
@@ -65,7 +65,7 @@ func pathsToNilReturns(c *eng.Ctx, rule string, fn *ssa.Function, limit int) []e
 		if !ok || len(last.Succs) != 0 {
 			continue
 		}
-		if len(r.Results) == res.Len() && res.Len() > 0 && eng.IsNilConst(r.Results[len(r.Results)-1]) {
+		if len(eng.RetResults(r)) == res.Len() && res.Len() > 0 && eng.IsNilConst(eng.RetResults(r)[len(eng.RetResults(r))-1]) {
 			out = append(out, p)
 		}
 	}
